@@ -1389,15 +1389,17 @@ class LogixDriver(CIPDriver):
                     else:
                         results[request.request_id] = Tag(request.tag, None, None, response.error)
                 else:
+                    # the embedded replies are parsed on their own, an encapsulation error of the packet fails them all
+                    packet_error = response.error if response.command_status != SUCCESS else None
                     for resp in response.responses:
                         req = resp.request
-                        if resp:
+                        if resp and packet_error is None:
                             results[req.request_id] = Tag(
                                 resp.tag, resp.value, resp.data_type, None
                             )
                         else:
                             results[req.request_id] = Tag(
-                                req.tag, None, None, req.error or resp.error
+                                req.tag, None, None, req.error or packet_error or resp.error
                             )
         return results
 
